@@ -4,7 +4,9 @@ from props.common import generic_replay
 
 PROP = "C14"
 RULE = ("spec/JsonFlags.tla: the table number class x {UseNumber, UseBigInt, UseInt64, UseUint64} subsets -> dynamic type (96 rows, each with "
-        "boundary literals, bare and inside arrays/objects) and the configuration lattice; spec/JsonTypes.tla shapes: every boundary value encoded "
+        "boundary literals, bare and inside arrays/objects), the configuration lattice, and the fault table (8 faults - a raw message or a marshal "
+        "method's output that is not JSON, failing methods, a channel, an infinity, a Number that is none - x 6 places x 8 flag subsets with the "
+        "verdict fails / does not fail and the domain of the property; invariant ErrorParity; witness: a TrustRawMessage that covers method output); spec/JsonTypes.tla shapes: every boundary value encoded "
         "under all 8 AppendFlags subsets (error iff default errors, valid JSON, same generic value, exact bytes of encoding/json's Encoder without "
         "HTML escaping, permutation when unsorted), Encoder setters, and the default output parsed back under all 16 subsets of the copy / case flags; "
         "spec/JsonString.tla: unit sequences (17 classes) with each unit at every offset of the encoder's 8-byte words, under all 8 subsets, byte for "
@@ -15,6 +17,10 @@ ASSUME = ["TrustRawMessage subsets are only run on values whose default encoding
 def extra(ck, vec):
     mc = vlib.must_hold(vlib.tlc("JsonFlags", "MC_JsonFlags.cfg", workers=4), "JsonFlags decision table properties")
     ck.add_mc(mc, "MC_JsonFlags")
+    w = vlib.tlc("JsonFlags", "MC_JsonFlagsTrustAll.cfg", workers=2, expect_violation=True)
+    if w.ok or w.violation != "ErrorParity":
+        raise vlib.Infra("JsonFlags with a TrustRawMessage that also switches off the check of marshal methods should violate ErrorParity: the model is vacuous")
+    ck.add_mc(w, "MC_JsonFlagsTrustAll(vacuity witness)")
     with open(vec, "a") as sink:
         g = vlib.must_hold(vlib.tlc("JsonFlags", "Gen_JsonFlags.cfg", workers=4, sink=sink), "flag tables")
     ck.add_mc(g, "Gen_JsonFlags")
